@@ -26,6 +26,15 @@ def ns(cls):
     for m in {"cat": ("cat",), "monoidal": ("cat", "monoidal"),
               "rigid": ("cat", "monoidal", "rigid")}[cls]:
         out.update(vars(importlib.import_module("discopy." + m)))
+
+    def hashed(v):
+        """Hash the value and everything inside it, then hand it back (so later transformations
+        start from an object whose hashes were already computed)."""
+        for b in getattr(v, "boxes", []):
+            hash(b)
+        hash(v)
+        return v
+    out["hashed"] = hashed
     return out
 
 
@@ -107,6 +116,17 @@ def entries(cls, quick=True):
                  "Diagram.caps(%s @ %s.r, (%s @ %s.r).l)" % (N, N, N, N),
                  "Id(%s).transpose()" % N, "Id(%s).transpose(left=True)" % N,
                  "Box('f', %s, %s.r).transpose()" % (N, N)]
+    if cls == "monoidal":
+        more += ["Box('f', Ty(1), Ty(1, 1))", "hashed(Box('f', PRO(1), PRO(2))).downgrade()",
+                 "Box('f', PRO(1), PRO(2)).downgrade()",
+                 "hashed(Box('f', PRO(1), PRO(2)) @ Id(PRO(1))).downgrade()",
+                 "Box('f', Ty(1), Ty(1, 1)) @ Id(Ty(1))",
+                 "hashed(Box('f', Ty('x'), Ty('y'))).downgrade()", "hashed(Swap(Ty('x'), Ty('y'))).dagger()",
+                 "hashed(Box('f', Ty('x'), Ty('y'))).dagger().dagger()",
+                 "hashed(Box('f', Ty('x'), Ty('y')) @ Id(Ty('x')))[:1]"]
+    else:
+        more += ["hashed(Box('f', %s, %s)).dagger().dagger()" % (X, Y), "hashed(Cup(%s, %s)).dagger().dagger()" % (X, Y),
+                 "hashed(Box('f', %s, %s) @ Id(%s))[:1]" % (X, Y, X)]
     out += [("expr", e) for e in more]
     for r in pools.recipes(cls, 2, 3):
         out.append(("recipe", r, "layered"))
